@@ -1,4 +1,4 @@
-\* post-processing: -S L1..L4/B1..B4 x -e x entry records x -s x -l, <= 2 items
+\* post-processing: -S L1..L4/B1..B4 x -e x entry records x -s (fill value 0), <= 2 items
 CONSTANTS
   Dev = {}
   MaxRecs = 2
@@ -7,7 +7,7 @@ CONSTANTS
   GranSet = {1}
   EntryAddrs = {305419896}
   Offsets = {}
-  FillSet = {255, 0}
+  FillSet = {0}
   SumOpts = {TRUE, FALSE}
   SegOpts = {1}
   CpuSegs <- CS_One
